@@ -320,24 +320,28 @@ impl FieldParser {
         i: &[u8],
         template: T,
     ) -> IResult<&[u8], Vec<BTreeMap<usize, IPFixFieldPair>>> {
-        // If no fields there are no fields to parse, return an error.
-        let (remaining, mut fields, total_taken) =
-            template.get_fields().iter().enumerate().try_fold(
-                (i, vec![], 0usize),
-                |(remaining, mut fields, total_taken), (c, field)| {
+        let mut fields = vec![];
+        let mut remaining = i;
+
+        // One iteration per record; a loop rather than recursion so that the number of
+        // records in a set is not limited by the stack.
+        loop {
+            let (i, total_taken) = template.get_fields().iter().enumerate().try_fold(
+                (remaining, 0usize),
+                |(remaining, total_taken), (c, field)| {
                     let mut data_field = BTreeMap::new();
                     let (i, field_value) = field.parse_as_field_value(remaining)?;
                     let taken = remaining.len().saturating_sub(i.len());
                     data_field.insert(c, (field.field_type, field_value));
                     fields.push(data_field);
-                    Ok((i, fields, total_taken.saturating_add(taken)))
+                    Ok((i, total_taken.saturating_add(taken)))
                 },
             )?;
+            remaining = i;
 
-        if remaining.len() >= total_taken {
-            let (remaining, more) = Self::parse(remaining, template)?;
-            fields.extend(more);
-            return Ok((remaining, fields));
+            if total_taken == 0 || remaining.len() < total_taken {
+                break;
+            }
         }
 
         Ok((remaining, fields))
